@@ -36,15 +36,19 @@ Inductive vrule := NeZero | GtZero.                 (* valid := conf != 0  |  co
 Inductive stackn := LastDim | Times (n : nat).      (* [mask] * data.shape[-1]  |  [mask] * n *)
 Inductive staxis := AxLast | Ax3.                   (* np.stack(..., axis=-1)  |  axis=3 *)
 Inductive zfkind := ZfWhere | ZfMul.                (* where(mask, t, 0)  |  t * mask *)
+(* MaskedTensor.matmul: MaskedTensor(t, self.mask)  |  mask = all(self.mask, -1, keepdim).expand(t.shape)  (proposed fix F16a) *)
+Inductive mmkind := MmKeep | MmAllExpand.
 Record cfg := { np_axis : staxis; torch_rule : vrule; tf_rule : vrule; tf_stack : stackn;
-                torch_zf : zfkind; tf_zf : zfkind }.
-Definition cfg_repaired : cfg :=
+                torch_zf : zfkind; tf_zf : zfkind; torch_mm : mmkind; tf_mm : mmkind;
+                tf_empty_ok : bool }.                (* MaskedTensor[list] / get_points cast the list to int32 (proposed fix) *)
+(* the constructors and zero_filled as repaired; the two points other owners' proposed fixes touch stay parameters *)
+Definition cfg_repaired (mm : mmkind) (e : bool) : cfg :=
   {| np_axis := AxLast; torch_rule := NeZero; tf_rule := NeZero; tf_stack := LastDim;
-     torch_zf := ZfWhere; tf_zf := ZfWhere |}.
+     torch_zf := ZfWhere; tf_zf := ZfWhere; torch_mm := mm; tf_mm := mm; tf_empty_ok := e |}.
 (* the tree as pinned before the repairs of F7 / F8 / F9 / the NumPy axis *)
 Definition cfg_pinned : cfg :=
   {| np_axis := Ax3; torch_rule := GtZero; tf_rule := GtZero; tf_stack := Times 2;
-     torch_zf := ZfMul; tf_zf := ZfMul |}.
+     torch_zf := ZfMul; tf_zf := ZfMul; torch_mm := MmKeep; tf_mm := MmKeep; tf_empty_ok := false |}.
 Definition valid_by (r : vrule) (w : N) : bool :=
   match r with NeZero => negb (is_zero32 w) | GtZero => is_pos32 w end.
 (* TensorFlow's CPU kernels run with denormals-are-zero: a subnormal float32 compares equal to 0 *)
@@ -147,12 +151,12 @@ Definition norm_gather (n : nat) (i : Z) : result nat :=
    Torch and TF skip the bounds check when nothing would be copied: TF whenever a slice is empty,
    Torch when the tensor has no elements although the indexed axis is not empty *)
 Definition unchecked (n : nat) (i : Z) : result nat := Ok (Z.to_nat (i mod Z.of_nat n)).
-Definition ix_list (b : bk) (n inner : nat) (idx : list Z) : result (list nat) :=
+Definition ix_list (b : bk) (empty_ok : bool) (n inner : nat) (idx : list Z) : result (list nat) :=
   match b with
   | Np => rmapM (norm_wrap n) idx
   | Torch => if Nat.eqb inner 0 && negb (Nat.eqb n 0) then rmapM (unchecked n) idx else rmapM (norm_wrap n) idx
   | Tf => match idx with
-          | [] => Err Type_                             (* tf.gather(x, []): the empty list is a float tensor *)
+          | [] => if empty_ok then Ok [] else Err Type_ (* tf.gather(x, []): the empty list is a float tensor *)
           | _ => if Nat.eqb inner 0 then rmapM (unchecked n) idx else rmapM (norm_gather n) idx
           end
   end.
@@ -193,7 +197,7 @@ Definition take_frames (c : cfg) (b : bk) (fps : N) (ix : list nat) (x : body) :
   ctor c b fps (dmapx (set0 (length ix)) (gat ix) (gat ix) (g_data x)) (set0 (length ix) (g_cs x)) (gat ix (g_conf x)).
 (* pose_body.py:530-551; tensorflow/pose_body.py:52-69 (tf.gather) *)
 Definition select_frames (c : cfg) (b : bk) (idx : list Z) (x : body) : result body :=
-  do ix <- ix_list b (extent 0 x) (inner0 x) idx; take_frames c b (g_fps x) ix x.
+  do ix <- ix_list b false (extent 0 x) (inner0 x) idx; take_frames c b (g_fps x) ix x.
 (* pose_body.py:266-285, index a slice *)
 Definition getitem_slice (c : cfg) (b : bk) (s : pyslice) (x : body) : result body :=
   do ix <- ix_slice b (extent 0 x) s; take_frames c b (g_fps x) ix x.
@@ -213,7 +217,7 @@ Definition slice_step (c : cfg) (b : bk) (by_ : Z) (x : body) : result body :=
    that puts the points axis first (and (2,1,0) for the confidence) is indexing on axis 2; the two
    permutations are regenerated and tied in proofs/C08_GenTie.v ---- *)
 Definition get_points (c : cfg) (b : bk) (idx : list Z) (x : body) : result body :=
-  do ix <- ix_list b (extent 2 x) (inner2 x) idx;
+  do ix <- ix_list b (tf_empty_ok c) (extent 2 x) (inner2 x) idx;
   ctor c b (g_fps x) (dmapx (set2 (length ix)) (map (map (gat ix))) (map (map (gat ix))) (g_data x))
        (set2 (length ix) (g_cs x)) (map (map (gat ix)) (g_conf x)).
 
@@ -268,8 +272,14 @@ Definition matmul (c : cfg) (b : bk) (m : matrix) (x : body) : result body :=
         (Masked (fs vs) (map3 (vecmat m) filled) (fs ms) (map3 (fun r => repeat (forallb (fun z => z) r) (m_cols m)) mk))
         (g_cs x) (g_conf x)
   | Np, Plain vs v => np_init c (g_fps x) (Plain (fs vs) (map3 (vecmat m) v)) (g_cs x) (g_conf x)
-  | _, Masked vs v ms mk =>                               (* MaskedTensor(matmul(tensor, matrix), self.mask) *)
-      ctor c b (g_fps x) (Masked (fs vs) (map3 (vecmat m) v) ms mk) (g_cs x) (g_conf x)
+  | _, Masked vs v ms mk =>
+      match (match b with Torch => torch_mm c | _ => tf_mm c end) with
+      | MmKeep =>                                         (* MaskedTensor(matmul(tensor, matrix), self.mask) *)
+          ctor c b (g_fps x) (Masked (fs vs) (map3 (vecmat m) v) ms mk) (g_cs x) (g_conf x)
+      | MmAllExpand =>                                    (* a row is valid iff all of its cells were; broadcast to the new width *)
+          ctor c b (g_fps x) (Masked (fs vs) (map3 (vecmat m) v) (fs vs)
+                                     (map3 (fun r => repeat (forallb (fun z => z) r) (m_cols m)) mk)) (g_cs x) (g_conf x)
+      end
   | _, Plain vs v => ctor c b (g_fps x) (Plain (fs vs) (map3 (vecmat m) v)) (g_cs x) (g_conf x)
   end.
 End Kernel.
